@@ -758,6 +758,9 @@ func (e *Encoder) Encode(m *Message) error {
 			return annotate(err).errorf("encode")
 		}
 		n := len(s.data)
+		if n%int(wordSize) != 0 {
+			return errorf("encode: segment %d not word-aligned", i)
+		}
 		if n > int(maxSegmentSize) {
 			return errorf("encode: segment %d too large", i)
 		}
